@@ -193,7 +193,8 @@ def _table(ctx) -> None:
                         problems.append(f"the key function returns `{sh(r, 60)}`, not (None flag, value)")
                     else:
                         flag, val = r[1]
-                        if not (val[0] == "sub" and val[2] == arg and val[1] in (("attr", colv, "_underlying"), colv)):
+                        cells = [("sub", ("attr", colv, "_underlying"), arg), ("sub", colv, arg)]
+                        if not _is_cell_value(val, cells):
                             problems.append(f"the key function reads `{sh(val, 60)}`, not THIS key column's value at the row (bound per pass)")
                         if revv not in list(subterms(flag)):
                             problems.append("the key function's None flag does not use this key's own reverse flag (bound per pass)")
@@ -329,6 +330,18 @@ def _vector(ctx) -> None:
            "no wholesale reversal", f.node, message="Vector.sort_by reverses a sorted list wholesale: ties come out in reversed order")
 
 
+def _is_cell_value(val, cells) -> bool:
+    """the value component of a sort key: the cell itself, or - on any path - the cell widened to midnight
+    (datetime.combine(cell, <midnight>): the order-preserving date -> datetime widening; a <datetime> column may hold plain dates)"""
+    if val in cells:
+        return True
+    if val[0] == "ifexp":
+        return _is_cell_value(val[2], cells) and _is_cell_value(val[3], cells)
+    if val[0] == "call" and val[1] == ("attr", ("name", "datetime"), "combine") and len(val[2]) == 2 and not val[3]:
+        return val[2][0] in cells
+    return False
+
+
 def _cell_problems(result, val, atoms_base, is_none_atom, rev: bool, nl: bool, sh) -> List[str]:
     """`result` is the key function's result term for element `val`.  Under each of is-None / not-None it must reduce to a
     (flag, value) pair with a constant boolean flag; the flags must order None after values iff na_last once the reversal applies."""
@@ -427,11 +440,11 @@ MUTANTS = [
     dict(id="columns-gathered-differently", module=_T, old="			new_data = [src[i] for i in indices]", new="			new_data = [src[i] for i in sorted(indices)] if col._name is None else [src[i] for i in indices]",
          rules=["a.permutation"]),
     dict(id="vector-flag-not-flipped", module=_V,
-         old="			key_fn = lambda x: ((x is None) if not reverse else (x is not None), x if x is not None else 0)",
-         new="			key_fn = lambda x: (x is None, x if x is not None else 0)", rules=["c.none-placement"]),
+         old="			key_fn = lambda x: ((x is None) if not reverse else (x is not None), value_of(x) if x is not None else 0)",
+         new="			key_fn = lambda x: (x is None, value_of(x) if x is not None else 0)", rules=["c.none-placement"]),
     dict(id="vector-none-high-merged", module=_V,
-         old="		if na_last:\n			key_fn = lambda x: ((x is None) if not reverse else (x is not None), x if x is not None else 0)\n		else:\n			key_fn = lambda x: ((x is not None) if not reverse else (x is None), x if x is not None else 0)",
-         new="		none_high = na_last and not reverse\n		key_fn = lambda x: ((x is None) if none_high else (x is not None), x if x is not None else 0)",
+         old="		if na_last:\n			key_fn = lambda x: ((x is None) if not reverse else (x is not None), value_of(x) if x is not None else 0)\n		else:\n			key_fn = lambda x: ((x is not None) if not reverse else (x is None), value_of(x) if x is not None else 0)",
+         new="		none_high = na_last and not reverse\n		key_fn = lambda x: ((x is None) if none_high else (x is not None), value_of(x) if x is not None else 0)",
          rules=["c.none-placement"]),
     dict(id="descending-by-reverse-call", module=_T, old="			indices.sort(key=key_fn, reverse=rev)",
          new="			indices.sort(key=key_fn)\n			if rev:\n				indices.reverse()", rules=["a.permutation", "b.stable-keys"]),
@@ -439,5 +452,5 @@ MUTANTS = [
          new="		new_vector = Vector(new_values, dtype=self._dtype)", rules=["a.permutation"]),
     dict(id="sort-renames-columns-lower", module=_T, old="			new_cols.append(Vector(new_data, dtype=col._dtype, name=col._name))\n\n		return Table(new_cols, name=self._name)",
          new="			new_cols.append(Vector(new_data, dtype=col._dtype, name=str(col._name).lower()))\n\n		return Table(new_cols, name=self._name)", rules=["a.permutation"]),
-    dict(id="twin-rename-indices", module=_T, twin=True, edits=[(_T, "indices", "order", 51)]),
+    dict(id="twin-rename-indices", module=_T, twin=True, edits=[(_T, "indices", "order", 56)]),
 ]
